@@ -305,7 +305,7 @@ def c01(W, replay=None):
         scen += random_histories(W, 600 if thorough else 60, faults=True)
         scen += parallel_family(W, 200 if thorough else 20)
         scen += [x for x in family(W, "C15", "quick") if "/body/" in x["id"]]        # odd token-endpoint bodies (C01 rule for them)
-        scen += [x for x in timeout_system_scenarios(W)] + decoy_family(W) + after_deny_family(W) + replica_family(W) + env_std(W) + debug_family(W) + subsecond_family(W) + nearby_paths_family(W)
+        scen += [x for x in timeout_system_scenarios(W)] + decoy_family(W) + after_deny_family(W) + replica_family(W) + env_std(W) + debug_family(W) + subsecond_family(W) + nearby_paths_family(W) + lifetimes_family(W)
     return sys_pipeline("C01", W, scen, None, [
         "the ID-token expiry and signature ground truth comes from the simulated identity provider",
         "one check runs at a time between gates (store, token endpoint, key lookup); real parallelism inside a store call is C12's subject",
@@ -1105,6 +1105,29 @@ def key_source_dimension(W, fam, n):
     return out
 
 
+def lifetimes_family(W):
+    """Sessions whose tokens run out in unusual (legal) ways: no refresh token and everything expired; an ID token that outlives
+    the access token (or the reverse) with the provider failing - in every way it can - exactly when the one that ran out is to
+    be renewed. The presented session is destroyed before a new login starts; nothing is let through on a failed renewal."""
+    res = []
+    fails = [("drop", {"mode": "drop"}), ("failBefore", {"mode": "fail-before"}), ("status500", {"mode": "status:500"}),
+             ("emptyObject", {"mode": "body:emptyObject"}), ("null", {"mode": "body:null"}), ("honest", {})]
+    for st in ("memory", "redis"):
+        for fwd in (True, False):
+            f = dict(F1, store=st, accessFwd=fwd)
+            # no refresh token: login, expiry, the old cookie comes back
+            a = {"mode": "honest", "rt": False, "expiresIn": 60, "idLife": 60}
+            res.append({"id": "lifetimes/%s/%s/noRt" % (st, "fwd" if fwd else "nofwd"), "cfg": {"filters": [f]}, "tags": ["lifetimes"],
+                        "steps": [browse("b1", "f1", 1, ans=a), {"op": "tick", "d": 7200}, app("b1", "f1", url=1, ans=a), app("b1", "f1", url=2, ans=a)]})
+            for (idl, atl, tick) in ((600, 60, 61), (60, 600, 61)):
+                for name, failing in fails:
+                    a = {"mode": "honest", "rt": True, "rotate": True, "expiresIn": atl, "idLife": idl}
+                    bad = dict(a, **failing)
+                    res.append({"id": "lifetimes/%s/%s/id%d-at%d/%s" % (st, "fwd" if fwd else "nofwd", idl, atl, name), "cfg": {"filters": [f]}, "tags": ["lifetimes"],
+                                "steps": [browse("b1", "f1", 1, ans=a), {"op": "tick", "d": tick}, app("b1", "f1", url=1, ans=bad), app("b1", "f1", url=2, ans=a)]})
+    return res
+
+
 def c04_fault_replay():
     """Every store call of an otherwise successful callback fails once (a store error; with Redis also the first / second
     Redis command of the call, or an error after the command took effect); then the browser goes on, and the callback is
@@ -1159,7 +1182,7 @@ def c05(W, replay=None):
     if not replay:
         design_mc(W, "c05-design", ["TokensOnlyUnderIssued"])
         fam = family(W, "C05")
-        scen = fam + c05_fault_sweep(fam) + envelope_late(W, fam if W.tier == "quick" else family(W, "C05", "quick")) + replica_family(W) + env_std(W) + debug_family(W) + family(W, "C04", "quick") + attacker_family(W, 400 if W.tier == "thorough" else 80) + decoy_family(W) + parallel_family(W, 200 if W.tier == "thorough" else 20)
+        scen = fam + lifetimes_family(W) + c05_fault_sweep(fam) + envelope_late(W, fam if W.tier == "quick" else family(W, "C05", "quick")) + replica_family(W) + env_std(W) + debug_family(W) + family(W, "C04", "quick") + attacker_family(W, 400 if W.tier == "thorough" else 80) + decoy_family(W) + parallel_family(W, 200 if W.tier == "thorough" else 20)
         if W.tier == "thorough":
             scen += random_histories(W, 500)
     return sys_pipeline("C05", W, scen, None, ASSUME_SYS, replay=replay)
@@ -1177,6 +1200,7 @@ def c11(W, replay=None):
         scen += [conv(m, "c11/race/%d" % i, 1, store=("memory", "redis")[i % 2], probes=finish_all(m) + [PROBE_APP]) for i, m in enumerate(ms)]
         scen += replica_family(W) + env_std(W) + debug_family(W) + envelope_late(W, family(W, "C11", "quick"))
         scen += [x for x in family(W, "C15", "quick") if "/body/" in x["id"]]        # refresh exchanges answered with something that is no token response
+        scen += lifetimes_family(W)
         scen += cancel_family(W, [x for x in scen if x["id"].startswith(("c11/rotate/n1", "c11/noRotate/n1", "c11/omitId/n1", "c11/badSig/n1"))])
         # every single fault position on the refresh path (store calls, provider, key lookup; Redis: single commands)
         ms = export(W, "c11-faults", Prepared='"expired"', Target=1, MaxApps=1, MaxFaults=2 if W.tier == "thorough" else 1, Checks="{1,2,3,4}", MaxSid=3, MaxTok=4)
